@@ -67,25 +67,26 @@ class C10(framework.PropertyCheck):
                 tok, v = g.int_tok()
                 pos = rng.choice(['top', 'list', 'quote', 'offset', 'slice', 'slice2', 'nested'])
                 yield {'k': 'lit', 'tok': tok, 'v': v, 'pos': pos}
-            elif k == 3 and i % 32 == 3:
+            elif k == 3 and i % 64 == 3:
                 yield {'k': 'bool', 'tok': rng.choice(['#t', '#f', 'true', 'false']), 'pos': rng.choice(['top', 'list', 'quote', 'offset', 'slice', 'nested'])}
-            elif k == 3 and i % 32 == 11:
+            elif k == 3 and i % 64 == 11:
                 # what a text denotes does not depend on what was read or evaluated before
                 a, b = gen_reader.join(g.sexpr(rng.randint(0, 2))), gen_reader.join(g.sexpr(rng.randint(0, 2)))
                 lit, _v = g.int_tok()
                 yield {'k': 'reread', 's': rng.choice([f'(when #t {lit})', f'(unless #f {lit} {a})', f'(when {a} {b})', f'(list (when #t {lit}) (unless #f 2))',
                                                       f'(cond [#f 1] [else {lit}])', f"(for/list [e9 '(1 2)] (+ e9 {lit}))", f'(do (inc v9) {a})',
                                                       f'(let ([v9 {lit}]) (when v9 (inc v9)))', f'(+ {lit} 1)', f"'({lit} {a})"])}
-            elif k == 3 and i % 32 == 27:
+            elif k == 3 and i % 64 == 27:
                 # float literals: digits, a point, any number of fraction digits (also none), optional sign
                 tok = rng.choice(['', '-', '+']) + str(rng.randrange(0, 2000)) + '.' + rng.choice(['', '', '0', '5', '25', '125', '0625', '500'])
                 yield {'k': 'flit', 'tok': tok, 'pos': rng.choice(['top', 'list', 'quote', 'nested'])}
-            elif k == 3 and i % 32 == 19:
+            elif k == 3 and i % 64 == 19:
                 tok, v = g.int_tok()
                 yield {'k': 'evaltop', 'tok': rng.choice([tok, '0', '0x0', '0b000', '#f', '#t', '""', '"s"', 'false', '0.0', '1.5'])}
             elif k == 3:
-                s = rng.choice(gen_reader.STRINGS) if rng.random() < 0.5 else ''.join(rng.choice('ab "\\\\\n\t;()ntr09%\'') for _ in range(rng.randint(0, 12)))
-                yield {'k': 'str', 'chars': s}
+                s = rng.choice(gen_reader.STRINGS) if rng.random() < 0.5 else ''.join(rng.choice('ab "\\\\\n\t;()ntr09%\'üµ') for _ in range(rng.randint(0, 12)))
+                s2 = rng.choice(gen_reader.STRINGS) if rng.random() < 0.5 else ''.join(rng.choice('ab "\\\\;c') for _ in range(rng.randint(0, 4)))
+                yield {'k': 'str', 'chars': s, 'chars2': s2}
             elif k in (4, 5):
                 yield {'k': 'layout', 'toks': g.sexpr(rng.randint(1, 4)), 'seed': rng.randrange(1 << 30)}
             elif k == 6:
@@ -117,7 +118,9 @@ class C10(framework.PropertyCheck):
             return [{'top': t, 'list': f'(a {t} b)', 'quote': f"'{t}", 'offset': f'a@{t}', 'slice': f'a[{t}]', 'slice2': f'a[7:{t}]',
                      'nested': f"(f '(1 ({t})) `(x ,{t}))"}[case['pos']]]
         if k == 'str':
-            return [gen_reader.esc(case['chars']), '(a ' + gen_reader.esc(case['chars']) + ')']
+            # ... and two literals on one line, the second followed by a comment that contains a quote character
+            return [gen_reader.esc(case['chars']), '(a ' + gen_reader.esc(case['chars']) + ')',
+                    '(f ' + gen_reader.esc(case['chars']) + ' ' + gen_reader.esc(case.get('chars2', 'c')) + ') ; "trailing']
         if k == 'layout':
             return [gen_reader.join(case['toks']), gen_reader.join(case['toks'], random.Random(case['seed'])),
                     ' \n' + gen_reader.join(case['toks'], random.Random(case['seed'] + 1)) + (' ; trailing comment' if case['seed'] % 3 else ' ;')]
@@ -216,7 +219,10 @@ class C10(framework.PropertyCheck):
             if r != ('ok', want):
                 return {'what': 'integer literal does not denote its value in this position', 'text': t, 'got': r, 'want': want}
         elif k == 'str':
-            (t1, r1), (t2, r2) = res
+            (t1, r1), (t2, r2), (t3, r3) = res
+            if r3 != ('ok', ('L', True, (('Y', 'f', None), ('S', case['chars']), ('S', case.get('chars2', 'c'))))):
+                return {'what': 'two string literals on one line do not denote their characters', 'text': t3, 'got': r3,
+                        'want': [case['chars'], case.get('chars2', 'c')]}
             if r1 != ('ok', ('S', case['chars'])):
                 return {'what': 'string literal does not denote the characters given by its escape sequences', 'text': t1, 'got': r1, 'want': case['chars']}
             if r2 != ('ok', ('L', True, (('Y', 'a', None), ('S', case['chars'])))):
